@@ -179,9 +179,10 @@ class FakeSession:
     """Duck-typed aiohttp.ClientSession talking to a FakeCluster."""
     _ids = 0
 
-    def __init__(self, cluster, client_id='op'):
+    def __init__(self, cluster, client_id='op', token=None):
         FakeSession._ids += 1
         self.sid = FakeSession._ids
+        self.token = token if token is not None else f'tok-{self.sid}'     # the credentials this session presents
         self.cluster = cluster
         self.client_id = client_id
         self.headers = {}
@@ -189,6 +190,13 @@ class FakeSession:
         self.fenced = False      # the owning process was killed: nothing may come from/to it anymore
         self.responses = []
         cluster.sessions.append(self)
+
+    def __eq__(self, other):
+        # two sessions presenting the same credentials are "the same credentials" for whoever compares them
+        return isinstance(other, FakeSession) and other.token == self.token
+
+    def __hash__(self):
+        return hash(self.token)
 
     async def request(self, method, url, json=None, headers=None, timeout=None, **kw):
         if self.fenced:
@@ -199,7 +207,10 @@ class FakeSession:
         coro = self.cluster.handle(self, method.upper(), url, json, headers or {}, total)
         rsp = await coro
         if self.closed:
+            # the session was closed while the request was in flight: whatever the server did, the client sees a broken connection
             rsp.close()
+            if getattr(rsp, 'req', None) is not None:
+                rsp.req['outcome'] = f'{rsp.req["outcome"]}+session-closed'
             raise aiohttp.ClientConnectionError('Connector is closed.')
         self.responses = [r for r in self.responses if not r.closed] + [rsp]
         return rsp
@@ -269,6 +280,7 @@ class FakeCluster:
         self.objects = {}        # (rkey, ns, name) -> body
         self.log = {}            # rkey -> [(rv:int, type, body)]
         self.horizon = {}        # rkey -> rv: history at or below is compacted
+        self.revoked = set()     # tokens of sessions whose credentials the server no longer accepts (401)
         self.watches = []
         self.all_watches = []
         self.sessions = []
@@ -516,7 +528,7 @@ class FakeCluster:
         loop = asyncio.get_running_loop()
         info = self._parse(method, path, query, headers)
         self.req_seq += 1
-        req = dict(id=self.req_seq, seq=self.world.tick(), t=loop.time(), client=session.client_id, sid=session.sid, method=method,
+        req = dict(id=self.req_seq, seq=self.world.tick(), t=loop.time(), client=session.client_id, sid=session.sid, token=session.token, method=method,
                    path=path, query=query, ctype=headers.get('Content-Type'),
                    payload=copy.deepcopy(payload), name=info['name'], plural=info['plural'], ns=info['ns'],
                    sub=info['sub'], outcome=None, t_done=None, applied=False,
@@ -529,6 +541,7 @@ class FakeCluster:
                 if total_timeout is not None and loop.time() - t0 + dt >= total_timeout:
                     await asyncio.sleep(max(0.0, total_timeout - (loop.time() - t0)))
                     req['outcome'] = 'client-timeout'
+                    req['t_done'] = loop.time()
                     raise asyncio.TimeoutError()
                 await asyncio.sleep(dt)
 
@@ -537,6 +550,12 @@ class FakeCluster:
         for eff in effects:
             if eff['do'] == 'latency':
                 await pause(eff.get('dt', 0.0))
+        if session.token in self.revoked:
+            req['outcome'] = 401
+            req['t_done'] = loop.time()
+            rsp = self._status(401, 'Unauthorized')
+            rsp.req = req
+            return rsp
         for eff in effects:
             do = eff['do']
             if do == 'kill_before':
@@ -554,7 +573,11 @@ class FakeCluster:
                     details = {'retryAfterSeconds': eff['retry_after_details']}
                 req['outcome'] = eff['code']
                 req['t_done'] = loop.time()
-                return self._status(eff['code'], eff.get('reason', 'Simulated'), headers=hdrs, details=details)
+                if eff['code'] == 401:
+                    self.revoked.add(session.token)      # the server does not change its mind about these credentials
+                rsp = self._status(eff['code'], eff.get('reason', 'Simulated'), headers=hdrs, details=details)
+                rsp.req = req
+                return rsp
             if do == 'exc':
                 req['outcome'] = 'exc:' + eff['exc']
                 req['t_done'] = loop.time()
@@ -585,6 +608,7 @@ class FakeCluster:
             rsp.close()
             raise
         req['t_done'] = loop.time()
+        rsp.req = req
         if rsp.watch is not None and total_timeout is not None:
             w = rsp.watch
             loop.call_later(max(0.0, total_timeout - (loop.time() - t0)), self._client_timeout, w)
